@@ -17,8 +17,15 @@ History of the statement (how two defects were found while proving it):
   spelling (`implString_classify` links it back to `classify`).
 * `unquoteMultiline` (and the Go `UnquoteMultiline`) tested `n == 6` before comparing the opening
   and closing quotes, so the 14 six-byte spellings `q q q a b c` with `a b c` quotes other than `q q q`
-  (e.g. `"""'''`; the lexer closes a multi-line string on any three quote characters) were accepted
+  (e.g. `"""'''`; the lexer then closed a multi-line string on any three quote characters) were accepted
   as the empty string.  The test order was fixed in the model and upstream.
+
+* the lexer ended a triple-quoted string at the first run of ANY three quote characters (each `"` or
+  `'`, mixed allowed), so `"""a'''b"""` was cut short and then rejected by `UnquoteMultiline`.  Fixed
+  upstream: `lexStatements` records the opening quote in `stringOpen`, `lexMultilineString` ends the
+  string only at three consecutive quotes equal to it; the model, `Denote.denote` (the body contains
+  no three consecutive quotes of the literal's OWN kind and does not end in one) and the proofs follow
+  (`triple_quoted_denotes`, `other_quotes_are_text` and the examples at the end).
 
 The proof is in `Platypus/Proofs/Literal{Utf8,Lex,Unquote}.lean`: the lexer's run on the spelling is
 described by pure functions of the bytes (`Lit.firstTok`: `findB`, `closeIdx`, `lexStr`), and these
@@ -127,6 +134,61 @@ theorem string_literal_denotes (s : Bytes) (hv : ValidUtf8 s) (hq : isQuoteChar 
     have hq' : c0 = 34 ∨ c0 = 39 ∨ c0 = 96 := by simpa [isQuoteChar, or_assoc] using hq
     exact Lit.implOf_eq_denote _ (valid_of_validUtf8 _ _ (Nat.lt_succ_self _) hv) c0 r0 rfl hq'
 
+/-- triple-quoted literals: `qqq b qqq` is one literal, denoting its raw body `b`, exactly when `b` does
+    not contain three consecutive `q` and does not end in `q` (i.e. the first `qqq` after the opening
+    delimiter is the closing one); otherwise the spelling is not accepted as a single literal -/
+theorem triple_quoted_denotes (q : UInt8) (hq : q = 34 ∨ q = 39) (b : Bytes)
+    (hv : ValidUtf8 (q :: q :: q :: (b ++ [q, q, q]))) :
+    implString (q :: q :: q :: (b ++ [q, q, q])) =
+      if Denote.hasTriple q b || b.getLast? == some q then none else some b := by
+  rw [string_literal_denotes _ hv (by rcases hq with rfl | rfl <;> rfl), Lit.denote_triple q hq b q q q]
+  simp only [and_self, if_true, Lit.endsQ]
+  cases Denote.hasTriple q b <;> simp
+
+/-- the condition of `Denote.denote` on the body `b` of `qqq b qqq`, said with occurrences: the text after
+    the opening delimiter is `b ++ [q, q, q]`; it has no `qqq` before the one at the very end
+    (no `qqq` in it once the last byte is dropped) iff `b` has no `qqq` and does not end in `q` -/
+theorem first_close_at_end (q : UInt8) : ∀ (b : Bytes),
+    Denote.hasTriple q (b ++ [q, q]) = false ↔ (Denote.hasTriple q b = false ∧ (b.getLast? == some q) = false)
+  | [] => by simp [Denote.hasTriple]
+  | [a] => by simp [Denote.hasTriple]
+  | [a, b1] => by
+    simp only [List.cons_append, List.nil_append, Denote.hasTriple]
+    cases h1 : (b1 == q) <;> cases h2 : (a == q) <;> simp_all
+  | a :: b1 :: b2 :: b3 => by
+    have ih := first_close_at_end q (b1 :: b2 :: b3)
+    have hl : (a :: b1 :: b2 :: b3).getLast? = (b1 :: b2 :: b3).getLast? := by simp [List.getLast?_cons_cons]
+    rw [hl, List.cons_append, Lit.hasTriple_cons, Lit.hasTriple_cons q a (b1 :: b2 :: b3),
+      Bool.or_eq_false_iff, Bool.or_eq_false_iff, ih]
+    have ht : Lit.tripleHead q (a :: ((b1 :: b2 :: b3) ++ [q, q])) = Lit.tripleHead q (a :: b1 :: b2 :: b3) := by
+      cases b3 <;> rfl
+    rw [ht, and_assoc]
+
+theorem hasTriple_of_not_mem (q : UInt8) : ∀ (b : Bytes), q ∉ b → Denote.hasTriple q b = false
+  | [], _ => rfl
+  | a :: r, h => by
+    have ha : (a == q) = false := by
+      simp only [List.mem_cons, not_or] at h
+      simpa using Ne.symm h.1
+    rw [Lit.hasTriple_cons, Lit.tripleHead_of_not q a r ha,
+      hasTriple_of_not_mem q r (fun hm => h (List.mem_cons_of_mem _ hm))]
+    rfl
+
+/-- in particular a body without the literal's own quote character — whatever else it contains:
+    quotes of the other kind (also three or more in a row), backslashes, newlines — is taken as is -/
+theorem other_quotes_are_text (q : UInt8) (hq : q = 34 ∨ q = 39) (b : Bytes) (hb : q ∉ b)
+    (hv : ValidUtf8 (q :: q :: q :: (b ++ [q, q, q]))) :
+    implString (q :: q :: q :: (b ++ [q, q, q])) = some b := by
+  rw [triple_quoted_denotes q hq b hv, hasTriple_of_not_mem q b hb]
+  have : (b.getLast? == some q) = false := by
+    cases hl : b.getLast? with
+    | none => rfl
+    | some c =>
+      have hc : c ∈ b := List.mem_of_getLast? hl
+      have : c ≠ q := fun h => hb (h ▸ hc)
+      simpa using this
+  rw [this]; rfl
+
 /-- canonical decimal spelling (no leading zeros) and hexadecimal spelling `0x…` of a natural number -/
 def decSpelling (n : Nat) : Bytes := (Nat.toDigits 10 n).map fun c => c.toNat.toUInt8
 def hexSpelling (n : Nat) : Bytes := [48, 120] ++ (Nat.toDigits 16 n).map fun c => c.toNat.toUInt8
@@ -199,5 +261,42 @@ example : implString [34, 97, 34, 32] = none ∧ implString [34, 34, 35, 34] = n
     empty string while `unquoteMultiline` tested `n == 6` before comparing the ends) -/
 example : implString [34, 34, 34, 39, 39, 39] = none ∧ Denote.denote [34, 34, 34, 39, 39, 39] = none := by decide
 example : ValidUtf8 [34, 97, 92, 110, 92, 120, 52, 49, 195, 169, 34] := by unfold ValidUtf8; decide
+
+/-! ### triple-quoted strings end at three quotes of the kind they opened with -/
+
+/-- `"""a'''b"""` is one MULTILINE_STRING item and denotes `a'''b` (the lexer used to stop at the `'''`) -/
+example : lexAll [34, 34, 34, 97, 39, 39, 39, 98, 34, 34, 34] =
+    [⟨.MULTILINE_STRING, 0, [34, 34, 34, 97, 39, 39, 39, 98, 34, 34, 34]⟩, ⟨.EOF, 11, []⟩] := by decide
+example : implString [34, 34, 34, 97, 39, 39, 39, 98, 34, 34, 34] = some [97, 39, 39, 39, 98] ∧
+    Denote.denote [34, 34, 34, 97, 39, 39, 39, 98, 34, 34, 34] = some [97, 39, 39, 39, 98] := by decide
+/-- `'''a"""b'''` likewise denotes `a"""b` -/
+example : lexAll [39, 39, 39, 97, 34, 34, 34, 98, 39, 39, 39] =
+    [⟨.MULTILINE_STRING, 0, [39, 39, 39, 97, 34, 34, 34, 98, 39, 39, 39]⟩, ⟨.EOF, 11, []⟩] := by decide
+example : implString [39, 39, 39, 97, 34, 34, 34, 98, 39, 39, 39] = some [97, 34, 34, 34, 98] ∧
+    Denote.denote [39, 39, 39, 97, 34, 34, 34, 98, 39, 39, 39] = some [97, 34, 34, 34, 98] := by decide
+/-- a mixed run: `"""a"'"b"""` denotes `a"'"b` -/
+example : implString [34, 34, 34, 97, 34, 39, 34, 98, 34, 34, 34] = some [97, 34, 39, 34, 98] ∧
+    Denote.denote [34, 34, 34, 97, 34, 39, 34, 98, 34, 34, 34] = some [97, 34, 39, 34, 98] := by decide
+/-- `"""a"""b"""` is NOT one literal: the string ends at the first `"""` (item `"""a"""`), then the name `b`,
+    then an unterminated `"""` -/
+example : (lexAll [34, 34, 34, 97, 34, 34, 34, 98, 34, 34, 34]).head? =
+      some ⟨.MULTILINE_STRING, 0, [34, 34, 34, 97, 34, 34, 34]⟩ ∧
+    (lexAll [34, 34, 34, 97, 34, 34, 34, 98, 34, 34, 34]).map (·.typ) = [.MULTILINE_STRING, .ID, .ERROR] := by decide
+example : implString [34, 34, 34, 97, 34, 34, 34, 98, 34, 34, 34] = none ∧
+    Denote.denote [34, 34, 34, 97, 34, 34, 34, 98, 34, 34, 34] = none := by decide
+/-- one or two quotes of the literal's kind may begin the body (`""""a"""` is `"a`, `"""""a"""` is `""a`), but
+    not end it: `"""a""""` is the item `"""a"""` followed by an unterminated `"` -/
+example : implString [34, 34, 34, 34, 97, 34, 34, 34] = some [34, 97] ∧
+    Denote.denote [34, 34, 34, 34, 97, 34, 34, 34] = some [34, 97] := by decide
+example : implString [34, 34, 34, 34, 34, 97, 34, 34, 34] = some [34, 34, 97] ∧
+    Denote.denote [34, 34, 34, 34, 34, 97, 34, 34, 34] = some [34, 34, 97] := by decide
+example : (lexAll [34, 34, 34, 97, 34, 34, 34, 34]).head? = some ⟨.MULTILINE_STRING, 0, [34, 34, 34, 97, 34, 34, 34]⟩ ∧
+    implString [34, 34, 34, 97, 34, 34, 34, 34] = none ∧ Denote.denote [34, 34, 34, 97, 34, 34, 34, 34] = none := by decide
+/-- three quotes of the other kind do not close: `"""a'''` is unterminated -/
+example : (lexAll [34, 34, 34, 97, 39, 39, 39]).map (·.typ) = [.ERROR] ∧
+    Denote.denote [34, 34, 34, 97, 39, 39, 39] = none := by decide
+/-- instances of the general theorems -/
+example : implString [34, 34, 34, 97, 39, 39, 39, 98, 34, 34, 34] = some [97, 39, 39, 39, 98] :=
+  other_quotes_are_text 34 (Or.inl rfl) [97, 39, 39, 39, 98] (by decide) (by unfold ValidUtf8; decide)
 
 end Platypus.C07
